@@ -17,7 +17,7 @@ PROPERTY = "C15"
 META = {
     "explanation": "symbolic execution of the real add/remove/assign methods against a reference association list; channels and indices are solver variables, so 'taken / not taken', 'max+1 overflows the on-disk width' and every index class are solver-decided branches",
     "bounds": {"quick": {"start_states": "empty, constructor-filled (calibration), decoded with 1-2 items", "sequence_length": "<= 2 (1 from the two-item decoded state; at most one bulk operation)", "index_window": "[-n-2, n+2]"},
-               "thorough": {"start_states": "same, decoded with up to 3 items", "sequence_length": "<= 3", "index_window": "[-n-2, n+2]"}},
+               "thorough": {"start_states": "same, decoded with up to 3 items", "sequence_length": "<= 2 over the full alphabet from every start state; 3 over the quick alphabet from empty / decoded-1 / constructor-1", "index_window": "[-n-2, n+2]"}},
     "outside_bounds": ["longer sequences", "blocks with more than 5 items", "atomicity of bulk operations that fail midway (only alignment/uniqueness invariants are asserted there)"],
     "assumptions": ["items carry pairwise distinct labels (so equality-based removal is identity-based)"],
 }
@@ -379,7 +379,15 @@ def instances(tier):
         for st in starts:
             out.append(Instance(f"{cls}.{st}.noop", seq_case(cls, st, ()), goals=["done"]))
             for n in range(1, maxlen + 1):
-                for seq in itertools.product(alpha, repeat=n):
+                if n == 3:
+                    # three-step histories: the smaller (quick) alphabet, from the empty, the
+                    # one-item decoded and the constructor-filled state
+                    if st not in ("empty", "decoded1", "ctor1"):
+                        continue
+                    alpha_n = alphabet(cls, "quick")
+                else:
+                    alpha_n = alpha
+                for seq in itertools.product(alpha_n, repeat=n):
                     bulk = sum(1 for o in seq if o[0] in ("add_many", "set_pairs", "set_list"))
                     if n == 3 and (st == "decoded3" or bulk > 1):
                         continue
